@@ -43,7 +43,7 @@ def layout (pg size : UInt64) : Layout :=
 
 /-- `_sodium_malloc` (HAVE_ALIGNED_MALLOC, HAVE_PAGE_PROTECTION, mmap available) -/
 def sodium_malloc (pg size : UInt64) : MallocResult :=
-  if size ≥ (0xFFFFFFFFFFFFFFFF : UInt64) - pg * 4 then .enomem else
+  if size ≥ (0xFFFFFFFFFFFFFFFF : UInt64) - pg * 5 then .enomem else
   let L := layout pg size
   .ok L [.mmap L.total,
          .mprotect pg pg .none,                                   -- guard page before the data
